@@ -206,7 +206,7 @@ def start(argv):
         print(args.output_image, ": ", width, "x", height, "x", colors, sep="")
 
     # Grab VEF palette
-    pal = data[2:18]
+    pal = [color & 0x3F for color in data[2:18]]
 
     image_data = []
 
@@ -246,6 +246,9 @@ def start(argv):
             bitmap.append(pal[(byte & 0b00110000) >> 4])
             bitmap.append(pal[(byte & 0b00001100) >> 2])
             bitmap.append(pal[byte & 0b00000011])
+
+    if len(bitmap) != width * height:
+        sys.exit("Image data does not match the image size.")
 
     with open(args.output_image, "wb") as file:
         w = png.Writer(width, height, palette=coco3_rgb, bitdepth=8)
